@@ -1043,7 +1043,14 @@ func (db *DB) reWriteData(pendingMergeEntries []*Entry) error {
 			return err
 		}
 	}
-	tx.Commit()
+	if err := tx.Commit(); err != nil {
+		// The rewrite did not happen: report it, so that Merge does not go
+		// on to remove the file whose records were to be rewritten, and
+		// release the write lock that a failed Commit leaves held.
+		tx.Rollback()
+		db.isMerging = false
+		return err
+	}
 	return nil
 }
 
